@@ -33,3 +33,27 @@ fn(SUB + 'split_edge', properties=['C13'], params={'polyline': 'PLine', 'edge_in
             '    for e in range(old(len(polyline.edges._data))))',
             # cached connectivity dropped: every later answer describes the refined polyline
             'polyline.connectivity.cleared'])
+
+# ---------------------------------------------------------------- triangulate_face (triangles and quads)
+SS = SUB + 'SurfaceSubdivision'
+klass('SubRaw', real='mouette.mesh.mesh_data.RawMeshData', fields={'vertices': 'VContainer', 'faces': 'RContainer', 'edges': 'RContainer'})
+klass(SS, fields={'mesh': 'SubRaw'})
+predicate('same_row', 'a, b', 'len(a) == len(b) and all(a[q] == b[q] for q in range(len(b)))')
+fn(SS + '.triangulate_face', properties=['C13'], params={'face_id': 'int'},
+   requires=['0 <= face_id and face_id < len(self.mesh.faces._data)', 'len(self.mesh.faces._attr) == 0',
+             # faces of more than four vertices are fanned from their barycentre (split_face_as_fan: sum of a symbolic-length list of
+             # vectors, outside the subset): bounded stand-in
+             'len(self.mesh.faces._data[face_id]) <= 4'],
+   modifies=['self.mesh.faces._data'],
+   ensures=[# a triangle (or a degenerate face) is left alone
+            'implies(old(len(self.mesh.faces._data[face_id])) < 4, len(self.mesh.faces._data) == old(len(self.mesh.faces._data)) '
+            '    and all(len(self.mesh.faces._data[g]) == old(len(self.mesh.faces._data[g])) and all(self.mesh.faces._data[g][q] == old(self.mesh.faces._data[g][q]) for q in range(old(len(self.mesh.faces._data[g])))) for g in range(old(len(self.mesh.faces._data)))))',
+            # a quad (A,B,C,D) becomes (A,B,D) in place and (B,C,D) at the end: one more face, the four sides keep their direction,
+            # the new diagonal is used once in each direction (consistent orientation)
+            'implies(old(len(self.mesh.faces._data[face_id])) == 4, len(self.mesh.faces._data) == old(len(self.mesh.faces._data)) + 1 '
+            '    and row3(self.mesh.faces._data[face_id], old(self.mesh.faces._data[face_id][0]), old(self.mesh.faces._data[face_id][1]), old(self.mesh.faces._data[face_id][3])) '
+            '    and row3(self.mesh.faces._data[old(len(self.mesh.faces._data))], old(self.mesh.faces._data[face_id][1]), old(self.mesh.faces._data[face_id][2]), old(self.mesh.faces._data[face_id][3])))',
+            # every other face untouched
+            'all(implies(g != face_id, len(self.mesh.faces._data[g]) == old(len(self.mesh.faces._data[g])) and all(self.mesh.faces._data[g][q] == old(self.mesh.faces._data[g][q]) for q in range(old(len(self.mesh.faces._data[g]))))) '
+            '    for g in range(old(len(self.mesh.faces._data))))'])
+predicate('row3', 'r, a, b, c', 'len(r) == 3 and r[0] == a and r[1] == b and r[2] == c')
